@@ -145,6 +145,14 @@ def messages(tier, rng):
                 if t not in seen:
                     seen.add(t)
                     yield t, dict(meta, cls=cls, pretty=pretty)
+    # IDs as newsroom systems write them (semicolons, commas, dots, backslashes; two IDs with the same tail), IDs with
+    # characters that mean something in paths / patterns, and IDs that only differ under some normalisation
+    for sids_, its_ in ((gens.VENDOR_STORY_IDS, gens.VENDOR_ITEM_IDS), (gens.SPECIAL_STORY_IDS[:2], gens.SPECIAL_ITEM_IDS[:2]),
+                        (gens.LOOKALIKE_STORY_IDS[:2], gens.LOOKALIKE_ITEM_IDS[:2])):
+        for cls, doc, meta in gens.story_level_messages(sids_, max_src=2, full_refs=False):
+            yield to_text(doc), dict(meta, cls=cls, pretty=False, odd_ids=True)
+        for cls, doc, meta in gens.item_level_messages([sids_[1]], its_, max_src=2):
+            yield to_text(doc), dict(meta, cls=cls, pretty=False, odd_ids=True)
     # IDs with leading / trailing white space are exposed as they are written
     for cls, doc, meta in gens.story_level_messages(gens.PADDED_STORY_IDS[:2], max_src=2, full_refs=False):
         for pretty in (False, True):
